@@ -141,7 +141,7 @@ partial def loop (h : IO.FS.Stream) (d : DS) : IO Unit := do
         | ["poll"] =>
           let due := match g.mode with | .lt => true | .et => s.k.edge | .os => s.k.armed && s.k.edge
           if !s.k.readable then
-            some (false, false, false, if g.mode != .lt then { s with k := { s.k with edge := false } } else s)
+            some (false, false, false, if g.mode != .lt then (step g s .stale).getD s else s)
           else some (due, due, false, s)
         | _ :: f :: _ =>
           match parseFlags f with
